@@ -278,11 +278,13 @@ class ContiguousBlockAllocator():
         return [x for x in self._array if x is not None and x.used]
 
     def _find_available(self, n):
+        # Sets of blocks have no reproducible order, sort to
+        # make the choice depend on the random seed only.
         if n in self._freed and len(self._freed[n]) > 0:
-            return bi.choice(list(self._freed[n]))
+            return bi.choice(sorted(self._freed[n], key=lambda x: x.start))
         for size, set_ in self._freed.items():
             if size >= n and len(set_) > 0:
-                return bi.choice(list(set_))
+                return bi.choice(sorted(set_, key=lambda x: x.start))
         if self.top + n - self.addr_offset > self.size\
         or self._array[self.top - self.addr_offset].used:
             return None
